@@ -21,8 +21,8 @@ func (r *Rng) U64() uint64 {
 	z = (z ^ (z >> 27)) * 0x94d049bb133111eb
 	return z ^ (z >> 31)
 }
-func (r *Rng) N(n int) int       { return int(r.U64() % uint64(n)) }
-func (r *Rng) P(pct int) bool     { return r.N(100) < pct }
+func (r *Rng) N(n int) int              { return int(r.U64() % uint64(n)) }
+func (r *Rng) P(pct int) bool           { return r.N(100) < pct }
 func (r *Rng) Pick(xs ...string) string { return xs[r.N(len(xs))] }
 func (r *Rng) PickI(xs ...int64) int64  { return xs[r.N(len(xs))] }
 
@@ -45,13 +45,13 @@ type Gen struct {
 }
 
 var profiles = map[string]map[string]int{
-	"fixed":     {"CFA": 8, "CBA": 1, "CAN": 3, "BID": 40, "MOD": 2, "ADDMSG": 1, "PARAMS": 2, "APIADD": 10, "APIUPD": 6, "BLOCK": 22, "SEND": 3, "LISTEN": 0, "GENESIS": 1, "FBLOCK": 0},
-	"batch":     {"CFA": 1, "CBA": 8, "CAN": 2, "BID": 34, "MOD": 14, "ADDMSG": 1, "PARAMS": 3, "APIADD": 10, "APIUPD": 5, "BLOCK": 18, "SEND": 2, "LISTEN": 0, "GENESIS": 1, "FBLOCK": 0},
-	"multi":     {"CFA": 8, "CBA": 8, "CAN": 3, "BID": 30, "MOD": 8, "ADDMSG": 1, "PARAMS": 3, "APIADD": 12, "APIUPD": 4, "BLOCK": 16, "SEND": 6, "LISTEN": 0, "GENESIS": 1, "FBLOCK": 0},
-	"hooks":     {"CFA": 8, "CBA": 8, "CAN": 4, "BID": 24, "MOD": 8, "ADDMSG": 1, "PARAMS": 1, "APIADD": 12, "APIUPD": 6, "BLOCK": 14, "SEND": 1, "LISTEN": 12, "GENESIS": 0, "FBLOCK": 0},
-	"genesis":   {"CFA": 6, "CBA": 8, "CAN": 2, "BID": 30, "MOD": 8, "ADDMSG": 0, "PARAMS": 2, "APIADD": 12, "APIUPD": 3, "BLOCK": 18, "SEND": 2, "LISTEN": 0, "GENESIS": 9, "FBLOCK": 0},
-	"fault":     {"CFA": 6, "CBA": 8, "CAN": 1, "BID": 34, "MOD": 6, "ADDMSG": 0, "PARAMS": 1, "APIADD": 14, "APIUPD": 2, "BLOCK": 16, "SEND": 1, "LISTEN": 2, "GENESIS": 0, "FBLOCK": 9},
-	"malformed": {"CFA": 14, "CBA": 14, "CAN": 8, "BID": 22, "MOD": 10, "ADDMSG": 4, "PARAMS": 8, "APIADD": 8, "APIUPD": 4, "BLOCK": 6, "SEND": 2, "LISTEN": 0, "GENESIS": 0, "FBLOCK": 0},
+	"fixed":     {"CFA": 8, "CBA": 1, "CAN": 3, "BID": 40, "MOD": 2, "ADDMSG": 1, "PARAMS": 2, "APIADD": 10, "APIUPD": 6, "BLOCK": 22, "SEND": 3, "LISTEN": 0, "GENESIS": 1, "FBLOCK": 0, "QUERY": 4},
+	"batch":     {"CFA": 1, "CBA": 8, "CAN": 2, "BID": 34, "MOD": 14, "ADDMSG": 1, "PARAMS": 3, "APIADD": 10, "APIUPD": 5, "BLOCK": 18, "SEND": 2, "LISTEN": 0, "GENESIS": 1, "FBLOCK": 0, "QUERY": 4},
+	"multi":     {"CFA": 8, "CBA": 8, "CAN": 3, "BID": 30, "MOD": 8, "ADDMSG": 1, "PARAMS": 3, "APIADD": 12, "APIUPD": 4, "BLOCK": 16, "SEND": 6, "LISTEN": 0, "GENESIS": 1, "FBLOCK": 0, "QUERY": 4},
+	"hooks":     {"CFA": 8, "CBA": 8, "CAN": 4, "BID": 24, "MOD": 8, "ADDMSG": 1, "PARAMS": 1, "APIADD": 12, "APIUPD": 6, "BLOCK": 14, "SEND": 1, "LISTEN": 12, "GENESIS": 0, "FBLOCK": 0, "QUERY": 4},
+	"genesis":   {"CFA": 6, "CBA": 8, "CAN": 2, "BID": 30, "MOD": 8, "ADDMSG": 0, "PARAMS": 2, "APIADD": 12, "APIUPD": 3, "BLOCK": 18, "SEND": 2, "LISTEN": 0, "GENESIS": 9, "FBLOCK": 0, "QUERY": 4},
+	"fault":     {"CFA": 6, "CBA": 8, "CAN": 1, "BID": 34, "MOD": 6, "ADDMSG": 0, "PARAMS": 1, "APIADD": 14, "APIUPD": 2, "BLOCK": 16, "SEND": 1, "LISTEN": 2, "GENESIS": 0, "FBLOCK": 9, "QUERY": 2},
+	"malformed": {"CFA": 14, "CBA": 14, "CAN": 8, "BID": 22, "MOD": 10, "ADDMSG": 4, "PARAMS": 8, "APIADD": 8, "APIUPD": 4, "BLOCK": 6, "SEND": 2, "LISTEN": 0, "GENESIS": 0, "FBLOCK": 0, "QUERY": 4},
 }
 var profileOrder = []string{"fixed", "batch", "multi", "hooks", "genesis", "fault", "malformed", "batch", "multi", "fixed"}
 
@@ -664,7 +664,7 @@ func (g *Gen) Next() Op {
 		return g.create(g.profile == "fixed" || (g.profile != "batch" && g.r.P(50)))
 	}
 	total := 0
-	kinds := []string{"CFA", "CBA", "CAN", "BID", "MOD", "ADDMSG", "PARAMS", "APIADD", "APIUPD", "BLOCK", "SEND", "LISTEN", "GENESIS", "FBLOCK"}
+	kinds := []string{"CFA", "CBA", "CAN", "BID", "MOD", "ADDMSG", "PARAMS", "APIADD", "APIUPD", "BLOCK", "SEND", "LISTEN", "GENESIS", "FBLOCK", "QUERY"}
 	for _, k := range kinds {
 		total += g.w[k]
 	}
@@ -706,6 +706,39 @@ func (g *Gen) Next() Op {
 		return g.listen()
 	case "GENESIS":
 		return NewOp("GENESIS")
+	case "QUERY":
+		return g.query()
 	}
 	panic("no kind")
+}
+
+func (g *Gen) query() Op {
+	as := g.auctions()
+	a := "0"
+	if len(as) > 0 {
+		a = fmt.Sprint(g.r.N(len(as) + 1))
+	}
+	optU := func() string {
+		if g.r.P(50) {
+			return "-"
+		}
+		return fmt.Sprintf("u%d", g.r.N(NUsers))
+	}
+	switch g.r.N(8) {
+	case 0:
+		return NewOp("QUERY", "q", "geta", "a", a)
+	case 1:
+		return NewOp("QUERY", "q", "lista", "st", g.r.Pick("-", "-", "1", "2", "3", "4", "5"), "ty", g.r.Pick("-", "-", "1", "2"))
+	case 2:
+		return NewOp("QUERY", "q", "getb", "a", a, "b", fmt.Sprint(g.r.N(5)))
+	case 3:
+		return NewOp("QUERY", "q", "listb", "a", a, "u", optU(), "m", g.r.Pick("-", "-", "0", "1"))
+	case 4:
+		return NewOp("QUERY", "q", "getl", "a", a, "u", fmt.Sprint(g.r.N(NUsers)))
+	case 5:
+		return NewOp("QUERY", "q", "listl", "a", a)
+	case 6:
+		return NewOp("QUERY", "q", "listv", "a", a)
+	}
+	return NewOp("QUERY", "q", "params")
 }
